@@ -1296,6 +1296,16 @@ def services():
             ctx.transport.resp_headers['Set-Cookie'] = 'session=secret-of-%s' % user
             return u'welcome ' + user
 
+    class YSvc(ServiceBase):
+        """JsonDocument in, YamlDocument out"""
+        @rpc(Unicode, _returns=Unicode)
+        def echo(ctx, s):
+            return s
+
+        @rpc(Unicode, _returns=Unicode)
+        def boom(ctx, s):
+            raise Fault('Client.Boom', s)
+
     class HSvc(ServiceBase):
         @rpc(Unicode, Integer, _returns=Tagged)
         def make(ctx, label, count):
@@ -1342,7 +1352,7 @@ def services():
             return s
 
     _SVC.update(Ordered=Ordered, Item=Item, Tagged=Tagged, Svc=Svc, HSvc=HSvc, HdrSvc=HdrSvc, PtSvc=PtSvc, AuxSvc=AuxSvc,
-                XSvc=XSvc, JSvc=JSvc)
+                XSvc=XSvc, JSvc=JSvc, YSvc=YSvc)
     return _SVC
 
 
@@ -1376,6 +1386,9 @@ def make_instance(fx):
         chunked = False                         # the whole body is joined before it is handed to the server
     elif fx == 'xml':
         app = Application([S['XSvc']], 'c12', in_protocol=XmlDocument(validator='lxml'), out_protocol=XmlDocument())
+    elif fx == 'yaml':
+        from spyne.protocol.yaml import YamlDocument
+        app = Application([S['YSvc']], 'c12', in_protocol=JsonDocument(), out_protocol=YamlDocument())
     elif fx == 'jrpc':
         from spyne.protocol.json import JsonRpc
         app = Application([S['JSvc']], 'c12', in_protocol=JsonRpc('spyne', validator='soft'), out_protocol=JsonDocument())
@@ -1479,6 +1492,18 @@ def request_universe():
           J('jnomethod', {"ver": 1, "body": {"nosuch": {}}}),
           J('jgarbage', None)]
     u[-1]['body'] = '{"ver": 1, "body": '
+
+    def Y(name, raw):
+        return R(name, 'yaml', body=raw, env={'CONTENT_TYPE': 'application/json'})
+    # a lone surrogate (only the pure-python YAML emitter can write it), an astral character and a NEL (written
+    # differently by the C and the python emitter), plain text, a fault quoting request data
+    u += [Y('yecho(surrogate)', b'{"echo": {"s": "\\ud800"}}'),
+          Y('yecho(astral)', b'{"echo": {"s": "\\ud83d\\ude00 ok"}}'),
+          Y('yecho(nel)', b'{"echo": {"s": "a\\u0085b"}}'),
+          Y('yecho(plain)', b'{"echo": {"s": "plain"}}'),
+          Y('yboom(astral)', b'{"boom": {"s": "\\ud83d\\ude00"}}'),
+          Y('yboom(surrogate)', b'{"boom": {"s": "x\\udc00"}}'),
+          Y('ybad', b'{"echo": ')]
 
     return u
 
@@ -2039,7 +2064,8 @@ def snapshot(w):
         if isinstance(o, (list, tuple, set, frozenset, deque)):
             xs = list(o)
             out[path] = ('seq', type(o).__name__, len(xs), tuple(id(x) if not isinstance(x, _PRIM) else x for x in xs)
-                         if not isinstance(o, (set, frozenset)) else len(xs))
+                         if not isinstance(o, (set, frozenset)) else
+                         tuple(sorted(repr(x)[:60] if isinstance(x, _PRIM) else '%s@%x' % (type(x).__name__, id(x)) for x in xs)))
             if not isinstance(o, (set, frozenset)):
                 for i, x in enumerate(xs[:50]):
                     walk(x, '%s[%d]' % (path, i), depth + 1)
@@ -2117,7 +2143,7 @@ def shared_writes():
     found = {}
     ctx_cells = {}
     universe = request_universe()
-    for fx in ('soap', 'soft', 'http', 'xml', 'jrpc'):
+    for fx in ('soap', 'soft', 'http', 'xml', 'jrpc', 'yaml'):
         w = make_instance(fx)
         reqs = [r for r in universe if r['fx'] == fx]
         for rnd in ('cold', 'warm'):
@@ -2441,6 +2467,7 @@ CONTEXT_PAIRS = {
              ('add(1,2)', 'add(40,2)'), ('hdr(T3,oops)', 'genfault(2)')],
     'jrpc': [('jsay(A,2)', 'jfault'), ('jsay(A,2)', 'jsay(B,3)'), ('jboom(x)', 'jlogin(bob)')],
     'xml': [('xadd(x,2)', 'xtypes'), ('xpart(c7)', 'xboom(e)')],
+    'yaml': [('yecho(surrogate)', 'yecho(astral)'), ('yboom(surrogate)', 'yecho(nel)'), ('yecho(astral)', 'yecho(plain)')],
     'http': [('hteapot(y)', 'hadd(1,2)'), ('hlogin(bob)', 'hwhoami(al)'), ('asxml(k)', 'make(a,3)'), ('hgen(2)', 'hlogin(eve)')],
 }
 
@@ -2450,7 +2477,7 @@ def phase_context_sweep(E, rng, T, fx):
     two requests that differ in it; the first is pre-empted at evenly spread points of its whole run (every point in
     the thorough tier), the second runs to completion in between"""
     pairs = [(fx, p) for p in CONTEXT_PAIRS[fx]] if fx != 'other' else \
-        [(f, p) for f in ('jrpc', 'xml') for p in CONTEXT_PAIRS[f]]
+        [(f, p) for f in ('jrpc', 'xml', 'yaml') for p in CONTEXT_PAIRS[f]]
     for fx, (a, b) in pairs:
         for x, y in ((a, b), (b, a)):
             base = E.execute(fx, [x, y], ['legs', [[0, None], [1, None]]], 'all', 'sequential')
@@ -2540,7 +2567,7 @@ def phase_stress(E, rng, T):
     H = E.H
     U = H.universe
     for i in range(40 * T):
-        fx = ('soap', 'soft', 'http', 'xml', 'jrpc')[i % 5]
+        fx = ('soap', 'soft', 'http', 'xml', 'jrpc', 'yaml')[i % 6]
         names_all = [r['name'] for r in U.values() if r['fx'] == fx]
         names = [rng.choice(names_all) for _ in range(4)]
         if fx in ('soap', 'soft'):
@@ -2561,8 +2588,9 @@ def worker(H, path, fn, seed, args):
     import traceback
     sink = Sink(path)
     try:
+        t0 = time.time()
         fn(Executor(H, sink), random.Random(seed), *args)
-        sink.emit(t='done')
+        sink.emit(t='done', secs=round(time.time() - t0, 1))
     except BaseException:       # noqa
         sink.emit(t='error', tb=traceback.format_exc())
         raise
@@ -2628,28 +2656,45 @@ def run(ctx):
     scratch = os.path.join(core.VERIF, '.scratch', 'c12-%d' % os.getpid())
     os.makedirs(scratch, exist_ok=True)
     phases = [('wsdl-a', phase_wsdl, ((0,),)), ('wsdl-b', phase_wsdl, ((1,),)), ('wsdl-n', phase_wsdl, ((),)), ('wsdl-fail', phase_wsdl_failures, ()), ('witness-errlog', phase_witness, ('errlog',)), ('witness-cache', phase_witness, ('cache',)), ('mixed-soap', phase_mixed, ('soap',)),
-              ('mixed-soft', phase_mixed, ('soft',)), ('mixed-http', phase_mixed, ('http',)), ('mixed-xml', phase_mixed, ('xml',)), ('mixed-jrpc', phase_mixed, ('jrpc',)),
+              ('mixed-soft', phase_mixed, ('soft',)), ('mixed-http', phase_mixed, ('http',)), ('mixed-xml', phase_mixed, ('xml',)), ('mixed-jrpc', phase_mixed, ('jrpc',)), ('mixed-yaml', phase_mixed, ('yaml',)),
               ('stress', phase_stress, ()),
               ('publish-soap', phase_publish_sweep, ('soap',)), ('publish-http', phase_publish_sweep, ('http',)),
               ('context-soap', phase_context_sweep, ('soap',)), ('context-http', phase_context_sweep, ('http',)),
-              ('context-other', phase_context_sweep, ('other',))]
+              ('context-jrpc', phase_context_sweep, ('jrpc',)), ('context-xml', phase_context_sweep, ('xml',)),
+              ('context-yaml', phase_context_sweep, ('yaml',))]
     if ctx.thorough:
         phases.append(('publish-soft', phase_publish_sweep, ('soft',)))
     mp = multiprocessing.get_context('fork')
     procs = []
     t0 = time.time()
+    # at most 5/8 of the cores as workers at a time (measured optimum): oversubscribing the machine makes every baton hand-over wait for a CPU
+    cap = max(2, min(len(phases), int(os.environ.get('C12_WORKERS') or ((os.cpu_count() or 4) * 5) // 8)))
+    limit = 3000 if ctx.thorough else 600
+    pending = []
     for name, fn, extra in phases:
         path = os.path.join(scratch, name + '.jsonl')
         seed = ctx.rng.getrandbits(64)
         p = mp.Process(target=worker, args=(H, path, fn, seed, (T,) + extra), daemon=True)
-        p.start()
+        pending.append((name, p, path))
         procs.append((name, p, path))
-    limit = 3000 if ctx.thorough else 420
-    for name, p, path in procs:
-        p.join(max(1, limit - (time.time() - t0)))
-        if p.is_alive():
-            p.kill()
-            p.join(5)
+    running = []
+    while pending or running:
+        while pending and len(running) < cap:
+            item = pending.pop(0)
+            item[1].start()
+            running.append(item)
+        time.sleep(0.05)
+        for item in list(running):
+            if not item[1].is_alive():
+                item[1].join(1)
+                running.remove(item)
+        if time.time() - t0 > limit:
+            for item in running:
+                item[1].kill()
+                item[1].join(5)
+            for item in pending:
+                pass        # never started: reported below as not finished
+            break
     ctx.log('T2/T3 workers finished (%.1fs)' % (time.time() - t0))
 
     queries, reals = [], []
@@ -2692,7 +2737,7 @@ def run(ctx):
                     reals.append((r['real'], d))
         nruns += n_here
         done = bool(recs) and recs[-1]['t'] == 'done'
-        ctx.log('  %-11s %5d runs%s' % (name, n_here, '' if done else '  (did not finish: exit code %s)' % p.exitcode))
+        ctx.log('  %-14s %5d runs %6.1fs%s' % (name, n_here, recs[-1].get('secs', 0) if done else 0, '' if done else '  (did not finish: exit code %s)' % p.exitcode))
         if not done:
             # the interpreter died (or hung) while executing the run announced last
             sig = p.exitcode
